@@ -12,8 +12,8 @@
     materialised from the empty heap and deleted, everything computed by [vm_compute] with the
     reference libc. *)
 From CJ Require Import Base Dbl Tree LibcNum LibcPrint ParseDefs ParseSpec Grammar ParseRefine ParseSafe
-  PrintDefs PrintStrict PrintStrictRef RoundTripNum RoundTripRefValid ParseUsable.
-From CJ Require Import Heap Forest CoreDefs ParseUsableHeap.
+  PrintDefs PrintStrict PrintStrictRef RoundTripNum RoundTripRefValid ParseUsable ParseUsableOracle.
+From CJ Require Import Heap Forest CoreDefs SortDefs ParseUsableHeap ParseUsableWalk.
 From CJ.gen Require Import Constants.
 From stdpp Require Import gmap.
 Local Open Scope Z_scope.
@@ -28,6 +28,44 @@ Proof.
                   |k d0 key0 ch0 Hk HF|k d0 key0 ch0 Hk HF]; subst; try reflexivity.
   - rewrite plain_unfold, (Hch _ _ HF). reflexivity.
   - rewrite plain_unfold, (Hch _ _ HF). reflexivity.
+Qed.
+
+(** ... and its strings and keys are C strings *)
+Lemma zero_free_nz s : zero_free s -> nz s = true.
+Proof.
+  intros H. unfold zero_free in H. unfold nz. apply forallb_forall. intros c Hc. rewrite List.Forall_forall in H.
+  destruct (Z.eqb_spec c 0) as [->|Hne]; [|done]. by destruct (H 0 Hc).
+Qed.
+Lemma key_ok_nz B k key : key_ok B k key -> nz_opt key = true.
+Proof. destruct key as [s|]; [|done]. intros [_ [Hz _]]. by apply zero_free_nz. Qed.
+
+Lemma shape_cstrings B D : forall t keyed d, shape B D keyed d t -> cstrings t = true.
+Proof.
+  induction t as [ty vs vi vd key ch IH] using node_ind'. intros keyed d H.
+  assert (Hch : forall k d', Forall (shape B D k d') ch -> forallb cstrings ch = true).
+  { intros k d' HF. apply forallb_forall. intros c Hc. rewrite List.Forall_forall in IH, HF. by apply (IH c Hc k d'), HF. }
+  rewrite cstrings_unfold.
+  inversion H as [k d0 key0 Hk|k d0 key0 Hk|k d0 key0 Hk|k d0 key0 x Hk Hx|k d0 key0 s Hk Hs
+                  |k d0 key0 ch0 Hk HF|k d0 key0 ch0 Hk HF]; subst; rewrite (key_ok_nz _ _ _ Hk); try reflexivity.
+  - cbn [nz_opt forallb]. destruct Hs as [Hz _]. by rewrite (zero_free_nz _ Hz).
+  - by rewrite (Hch _ _ HF).
+  - by rewrite (Hch _ _ HF).
+Qed.
+
+(** walking: the independent traversal [SortDefs.read_node] of the image of [t], built in any
+    well-formed heap, returns without error, leaves the heap as it is, and reads back [t] *)
+Definition walkable (t : node) : Prop :=
+  forall h F, WF h F ->
+    exists h', mat t h = Ret (Some (h_next h), h') /\
+      forall fuel, (node_size t <= fuel)%nat -> read_node fuel (Some (h_next h)) h' = Ret (t, h').
+
+Theorem parsed_tree_walks strtod l rnt t rest : text_l strtod l rnt = Some (t, rest) -> walkable t.
+Proof.
+  intros H h F W.
+  assert (Hs : shape (fun _ => True) (fun _ => True) false nesting_limit t).
+  { apply (text_l_shape strtod (fun _ => True) (fun _ => True) (fun _ _ => I) (fun _ _ _ _ => I) l rnt t rest); [|exact H].
+    apply List.Forall_forall. intros; exact I. }
+  apply (mat_read_back t h F); [by eapply shape_plain|by eapply shape_cstrings|done].
 Qed.
 
 (** PART 3.  Every tree of an accepted text — hence every tree the entry points return — seen as a
@@ -45,18 +83,143 @@ Qed.
 Theorem parsed_result_walks_and_deletes strtod content len rnt r t :
   strtod_ok strtod -> (len <= length content)%nat ->
   cJSON_ParseWithLengthOpts strtod never_fails content len rnt = Ok r -> pr_tree r = Some t ->
-  heap_usable t /\ pr_live r = blocks t.
+  heap_usable t /\ walkable t /\ pr_live r = blocks t.
 Proof.
-  intros Hok Hlen Hr Ht. split.
-  - destruct (parse_refines_spec strtod content len rnt Hok Hlen) as (r0 & Hr0 & Hspec).
+  intros Hok Hlen Hr Ht.
+  assert (Htxt : exists rest, text_l strtod (firstn len content) rnt = Some (t, rest)).
+  { destruct (parse_refines_spec strtod content len rnt Hok Hlen) as (r0 & Hr0 & Hspec).
     rewrite Hr in Hr0. injection Hr0 as <-.
     destruct (text_l strtod (firstn len content) rnt) as [[t0 rest]|] eqn:E.
-    + destruct Hspec as [Ht0 _]. rewrite Ht in Ht0. injection Ht0 as <-.
-      eapply parsed_tree_walks_and_deletes. exact E.
-    + rewrite Ht in Hspec. discriminate.
+    + destruct Hspec as [Ht0 _]. rewrite Ht in Ht0. injection Ht0 as <-. by exists rest.
+    + rewrite Ht in Hspec. discriminate. }
+  destruct Htxt as [rest E]. split; [|split].
+  - eapply parsed_tree_walks_and_deletes. exact E.
+  - eapply parsed_tree_walks. exact E.
   - destruct (parse_length_safe strtod never_fails content len rnt Hok Hlen) as (r0 & Hr0 & _ & Hl).
     rewrite Hr in Hr0. injection Hr0 as <-. by apply Hl.
 Qed.
+
+(** * every allocation schedule, every entry point *)
+
+(** heap side, length-based entry point, ANY schedule: a returned tree is usable and the ledger
+    of the call is its block count *)
+Theorem parsed_any_oracle_walks_and_deletes strtod oracle content len rnt r t :
+  strtod_ok strtod -> (len <= length content)%nat ->
+  cJSON_ParseWithLengthOpts strtod oracle content len rnt = Ok r -> pr_tree r = Some t ->
+  heap_usable t /\ walkable t /\ pr_live r = blocks t.
+Proof.
+  intros Hok Hlen Hr Ht.
+  exact (parsed_result_walks_and_deletes strtod content len rnt r t Hok Hlen
+           (parse_tree_any_oracle strtod oracle content len rnt r t Hr Ht) Ht).
+Qed.
+
+(** shape, ANY schedule *)
+Theorem parsed_tree_shape_any_oracle strtod (B : Z -> Prop) (D : dbl -> Prop) :
+  (forall c, is_byte c = true -> B c) -> (forall s d k, strtod s = Some (d, k) -> D d) ->
+  strtod_ok strtod ->
+  forall oracle content len rnt r t, (len <= length content)%nat -> List.Forall B (firstn len content) ->
+    cJSON_ParseWithLengthOpts strtod oracle content len rnt = Ok r -> pr_tree r = Some t ->
+    shape B D false nesting_limit t.
+Proof.
+  intros HB HD Hok oracle content len rnt r t Hlen HF Hr Ht.
+  exact (parsed_tree_shape strtod B D HB HD Hok content len rnt r t Hlen HF
+           (parse_tree_any_oracle strtod oracle content len rnt r t Hr Ht) Ht).
+Qed.
+
+(** prints, ANY schedule of the parse (and, inside [prints_ok], any schedule of the print) *)
+Theorem parsed_any_oracle_prints strtod fmt_d fmt_g15 fmt_g17 sscanf_lg :
+  LibcStrictSpec fmt_d fmt_g15 fmt_g17 -> strtod_ok strtod -> strtod_valid strtod ->
+  forall oracle content len rnt r t,
+    (len <= length content)%nat -> List.Forall Bbyte (firstn len content) ->
+    cJSON_ParseWithLengthOpts strtod oracle content len rnt = Ok r -> pr_tree r = Some t ->
+    prints_ok fmt_d fmt_g15 fmt_g17 sscanf_lg t.
+Proof.
+  intros L Hok Hvalid oracle content len rnt r t Hlen HB Hr Ht.
+  exact (parsed_result_prints strtod fmt_d fmt_g15 fmt_g17 sscanf_lg L Hok Hvalid content len rnt r t Hlen HB
+           (parse_tree_any_oracle strtod oracle content len rnt r t Hr Ht) Ht).
+Qed.
+
+Corollary parsed_any_oracle_deletes strtod oracle content len rnt r t :
+  strtod_ok strtod -> (len <= length content)%nat ->
+  cJSON_ParseWithLengthOpts strtod oracle content len rnt = Ok r -> pr_tree r = Some t ->
+  heap_usable t /\ pr_live r = blocks t.
+Proof.
+  intros Hok Hlen Hr Ht.
+  destruct (parsed_any_oracle_walks_and_deletes strtod oracle content len rnt r t Hok Hlen Hr Ht) as (HU & _ & HL).
+  by split.
+Qed.
+Corollary parsed_any_oracle_walks strtod oracle content len rnt r t :
+  strtod_ok strtod -> (len <= length content)%nat ->
+  cJSON_ParseWithLengthOpts strtod oracle content len rnt = Ok r -> pr_tree r = Some t ->
+  walkable t.
+Proof.
+  intros Hok Hlen Hr Ht.
+  by destruct (parsed_any_oracle_walks_and_deletes strtod oracle content len rnt r t Hok Hlen Hr Ht) as (_ & HW & _).
+Qed.
+Corollary tree_means_all_granted strtod oracle content len rnt r t :
+  cJSON_ParseWithLengthOpts strtod oracle content len rnt = Ok r -> pr_tree r = Some t ->
+  (forall k, (k < pr_requests r)%nat -> oracle k = false) /\
+  cJSON_ParseWithLengthOpts strtod never_fails content len rnt = Ok r.
+Proof.
+  intros E Ht. split; [exact (parse_tree_granted strtod oracle content len rnt r t E Ht)|
+                       exact (parse_tree_any_oracle strtod oracle content len rnt r t E Ht)].
+Qed.
+
+Lemma Forall_firstn_list {A} (P : A -> Prop) n : forall l : list A, List.Forall P l -> List.Forall P (firstn n l).
+Proof.
+  induction n as [|n IH]; intros l H; [constructor|]. destruct l as [|x l]; [constructor|].
+  inversion H; subst. cbn [firstn]. constructor; [assumption|]. by apply IH.
+Qed.
+
+Section AllEntries.
+  Variable strtod : bytes -> option (dbl * nat).
+  Variable fmt_d : Z -> bytes.
+  Variable fmt_g15 fmt_g17 : dbl -> bytes.
+  Variable sscanf_lg : bytes -> option dbl.
+  Hypothesis L : LibcStrictSpec fmt_d fmt_g15 fmt_g17.
+  Hypothesis Hok : strtod_ok strtod.
+  Hypothesis Hvalid : strtod_valid strtod.
+
+  (** shape + prints + walks/deletes in one statement *)
+  Definition usable (t : node) : Prop :=
+    shape Bbyte Dvalid false nesting_limit t /\ prints_ok fmt_d fmt_g15 fmt_g17 sscanf_lg t /\
+    walkable t /\ heap_usable t.
+
+  (** cJSON_ParseWithLengthOpts (and cJSON_ParseWithLength = the same with rnt = false) *)
+  Theorem parse_length_result_usable oracle content len rnt r t :
+    (len <= length content)%nat -> List.Forall Bbyte (firstn len content) ->
+    cJSON_ParseWithLengthOpts strtod oracle content len rnt = Ok r -> pr_tree r = Some t ->
+    usable t /\ pr_live r = blocks t.
+  Proof.
+    intros Hlen HB Hr Ht.
+    pose proof (parse_tree_any_oracle strtod oracle content len rnt r t Hr Ht) as Hr0.
+    destruct (parsed_result_walks_and_deletes strtod content len rnt r t Hok Hlen Hr0 Ht) as (HU & HW & HL).
+    split; [|exact HL]. split; [|split; [|split; [exact HW|exact HU]]].
+    - exact (parsed_tree_shape strtod Bbyte Dvalid (fun c Hc => Hc) Hvalid Hok content len rnt r t Hlen HB Hr0 Ht).
+    - exact (parsed_result_prints strtod fmt_d fmt_g15 fmt_g17 sscanf_lg L Hok Hvalid content len rnt r t Hlen HB Hr0 Ht).
+  Qed.
+
+  (** cJSON_ParseWithOpts (and cJSON_Parse = the same with rnt = false) *)
+  Theorem parse_string_result_usable oracle content rnt r t :
+    List.Forall Bbyte content ->
+    cJSON_ParseWithOpts strtod oracle content rnt = Ok r -> pr_tree r = Some t ->
+    usable t /\ pr_live r = blocks t.
+  Proof.
+    intros HB Hr Ht. destruct (parse_with_opts_as_length strtod oracle content rnt r Hr) as (n & Hn & Hr').
+    exact (parse_length_result_usable oracle content (n + 1) rnt r t Hn (Forall_firstn_list _ _ _ HB) Hr' Ht).
+  Qed.
+
+  Corollary parse_result_usable oracle content r t :
+    List.Forall Bbyte content -> cJSON_Parse strtod oracle content = Ok r -> pr_tree r = Some t ->
+    usable t /\ pr_live r = blocks t.
+  Proof. apply parse_string_result_usable. Qed.
+
+  Corollary parse_with_length_result_usable oracle content len r t :
+    (len <= length content)%nat -> List.Forall Bbyte (firstn len content) ->
+    cJSON_ParseWithLength strtod oracle content len = Ok r -> pr_tree r = Some t ->
+    usable t /\ pr_live r = blocks t.
+  Proof. apply parse_length_result_usable. Qed.
+End AllEntries.
 
 (** the reference strtod satisfies the validity clause (RoundTripRefValid.v; Flocq) *)
 Lemma strtod_ref_valid : strtod_valid strtod_ref.
@@ -108,28 +271,50 @@ Example usable_example :
   render fmt_d sg_fmt_g15 sg_fmt_g17 sscanf_lg false 0 ex_tree = Some ex_unformatted /\
   (exists txt, render fmt_d sg_fmt_g15 sg_fmt_g17 sscanf_lg true 0 ex_tree = Some txt /\ length txt = 83%nat) /\
   (* materialised from the empty heap: root 1, 16 live library blocks 1..16; after cJSON_Delete: nothing *)
-  (exists live, ex_run = Some (Some 1%positive, live, 17%positive, [], [], []) /\ length live = 16%nat).
+  (exists live, ex_run = Some (Some 1%positive, live, 17%positive, [], [], []) /\ length live = 16%nat) /\
+  (* the walk of the image reads back the tree *)
+  (exists h', mat ex_tree empty_heap = Ret (Some 1%positive, h') /\
+              exists h'', read_node 20 (Some 1%positive) h' = Ret (ex_tree, h'')).
 Proof.
-  split; [|split; [|split; [|split; [|split; [|split]]]]].
-  - apply Forall_forall. intros c Hc. apply (proj1 (forallb_forall _ _) (eq_refl : forallb is_byte ex_text = true) c Hc).
+  split; [|split; [|split; [|split; [|split; [|split; [|split]]]]]].
+  - apply List.Forall_forall. intros c Hc. apply (proj1 (forallb_forall _ _) (eq_refl : forallb is_byte ex_text = true) c Hc).
   - vm_compute. reflexivity.
   - eexists. split; [vm_compute; reflexivity|]. split; reflexivity.
   - reflexivity.
   - vm_compute. reflexivity.
   - eexists. split; [vm_compute; reflexivity|]. reflexivity.
   - eexists. split; [vm_compute; reflexivity|]. reflexivity.
+  - destruct (mat_read_back ex_tree empty_heap [] eq_refl eq_refl) as (h' & Hm & Hr).
+    { constructor; cbn; try done; try apply NoDup_nil_2; intros b Hb; by apply elem_of_nil in Hb. }
+    exists h'. split; [exact Hm|]. exists h'. apply Hr. vm_compute. lia.
 Qed.
 
 (** the general theorems apply to it: all hypotheses hold for the reference libc *)
 Example usable_example_general :
   shape Bbyte Dvalid false nesting_limit ex_tree /\
   prints_ok fmt_d sg_fmt_g15 sg_fmt_g17 sscanf_lg ex_tree /\
-  heap_usable ex_tree.
+  heap_usable ex_tree /\ walkable ex_tree.
 Proof.
   destruct usable_example as (HB & Htxt & _).
-  split; [|split].
+  split; [|split; [|split]].
   - exact (text_l_shape strtod_ref Bbyte Dvalid (fun c Hc => Hc) strtod_ref_valid ex_text false ex_tree [] HB Htxt).
   - exact (parsed_tree_prints strtod_ref fmt_d sg_fmt_g15 sg_fmt_g17 sscanf_lg strict_spec_satisfiable strtod_ref_valid
              ex_text false ex_tree [] HB Htxt).
   - exact (parsed_tree_walks_and_deletes strtod_ref ex_text false ex_tree [] Htxt).
+  - exact (parsed_tree_walks strtod_ref ex_text false ex_tree [] Htxt).
 Qed.
+
+(** evidence on the example only (computed, not a theorem about all trees): our [mat], which
+    appends the children with the library's add_item_to_array, and [SortDefs.materialize], which
+    links them inline the way parse_array / parse_object do (next/prev as it goes, head.prev = last
+    at the end), leave IDENTICAL heaps — links, data, strings, ownership, liveness, allocator
+    counters and event trace *)
+Definition heap_obs (h : heap) :=
+  (map_to_list (h_lnk h), map_to_list (h_dat h), map_to_list (h_str h), map_to_list (h_own h),
+   elements (h_live h), h_next h, h_req h, h_trace h).
+Example mat_agrees_with_inline_linking_on_example :
+  match mat ex_tree empty_heap, materialize ex_tree empty_heap with
+  | Ret (p1, h1), Ret (p2, h2) => p1 = p2 /\ heap_obs h1 = heap_obs h2
+  | _, _ => False
+  end.
+Proof. vm_compute. split; reflexivity. Qed.
